@@ -343,3 +343,27 @@ def stream_loop_condition(cond):
             # the stream object itself in a boolean context
             return 'success' if not neg else 'other'
     return 'other'
+
+
+ASSERT_FAIL = ('__assert_fail', '__assert', '__assert_perror_fail', '_assert')
+
+
+def assert_side_effects(func):
+    """state changes that are operands of assert(): they exist only in builds without NDEBUG.  The analysis runs
+    with -UNDEBUG, where glibc's assert( e) is  (e) ? void( 0) : __assert_fail( ...)  - reported are increments,
+    decrements and assignments inside the condition of such an expression.  Returns the offending nodes."""
+    res = []
+    for x in func.walk():
+        if x.get('k') != 'ConditionalOperator':
+            continue
+        kids = children(x)
+        if len(kids) != 3 or not any(y.get('k') in CALL_KINDS and (y.get('callee') or '').split('::')[-1] in ASSERT_FAIL
+                                     for y in walk(kids[2])):
+            continue
+        for y in walk(kids[0]):
+            k = y.get('k')
+            if (k == 'UnaryOperator' and y.get('op') in ('++', '--')) or k == 'CompoundAssignOperator' or \
+                    (k == 'BinaryOperator' and y.get('op') == '=') or \
+                    (k == 'CXXOperatorCallExpr' and y.get('op') in ('=', '+=', '-=', '++', '--', '|=', '&=', '^=', '<<=', '>>=')):
+                res.append(y)
+    return res
